@@ -185,7 +185,9 @@ fn seeds_for(e: Endian) -> Vec<Seed> {
             m.build_strings = Some(b);
         }
         if v >= 5 {
-            m.misc_5 = Some(synth::MiscInfo5Fields { xstate_data: Default::default(), process_cookie: Some(9) });
+            // XSAVE features 0, 2 and the very last one (63) enabled
+            let xstate_data = md::XSTATE_CONFIG_FEATURE_MSC_INFO { enabled_features: 0x8000_0000_0000_0005, context_size: 0x400, ..Default::default() };
+            m.misc_5 = Some(synth::MiscInfo5Fields { xstate_data, process_cookie: Some(9) });
         }
         d = d.add_stream(m);
         out.push(finish(&format!("misc{v}"), e, threaded(d, true, 5)));
